@@ -704,7 +704,11 @@ func c13Gen(r *Rng, gated bool) *C13Input {
 		if in.Mode == 5 {
 			in.Handlers = true
 		}
-		if r.Chance(50) {
+		// DisposeForce takes none of the machine's locks (documented: "Will cause
+		// panics"): with background callers the Go runtime may abort the whole
+		// process (concurrent map iteration and write in Subscriptions), which no
+		// harness can survive; background load only with the locking triggers
+		if r.Chance(50) && in.Mode != 7 {
 			in.Load = r.Range(1, 2)
 		}
 		return in
@@ -851,6 +855,9 @@ func runC13(c *Ctx) error {
 		obs  *C13Obs
 	}
 	var items []*item
+	// a fault in a goroutine of the library kills the process: keep the report short
+	// enough for its first lines (the reason) to survive in the driver's log tail
+	debug.SetTraceback("single")
 	c13Popped = c13HasPopped()
 	cases, replayOnly := c.loadCases()
 	repeat := 1
